@@ -2,7 +2,7 @@
    as #define NAME 1, #define NAME v, #define F(a,...) v  (token level: for
    every well-formed head and EVERY replacement list v, including those that
    make_macro rejects - then both sides fail with the same error). *)
-From Coq Require Import ZArith String Ascii Bool List Lia.
+From Coq Require Import ZArith String Ascii Bool List Lia Arith.
 From CBI Require Import Lib.Data Lib.Res Model.C03tok Model.C03.
 From CBI Require Gen.C03_tables.
 Import ListNotations.
@@ -205,38 +205,66 @@ Proof.
 Qed.
 
 (* ---------- the theorem ---------- *)
-Definition eq_tok (w : bool) : tok := mkTok KOp w Gen.C03_tables.define_separator true.
 Definition default_tok (w : bool) : tok := mkTok KNum w Gen.C03_tables.default_expansion true.
 
-(* -DHEAD=v  versus  #define HEAD v   (v any token list; in the #define its first
-   token is preceded by white space) *)
-Theorem cmdline_define_value name ps v w w' we :
+Lemma head_len_sub (h rest : list tok) : List.length (h ++ rest) - List.length rest = List.length h.
+Proof. rewrite app_length. lia. Qed.
+
+Lemma dash_d_head name ps rest w sep :
+  wf_head ps -> follows_ok ps rest ->
+  macro_from_dash_d (head w name ps ++ rest) (List.length (head w name ps)) sep
+  = make_macro (idt w name) (args_of ps) (if sep then rest else [one_tok]).
+Proof.
+  intros Hwf Hfo. unfold macro_from_dash_d.
+  rewrite (macro_definition_head w name ps rest Hwf Hfo).
+  now rewrite head_len_sub, Nat.eqb_refl.
+Qed.
+
+Lemma define_head name ps rest w :
+  wf_head ps -> follows_ok ps rest ->
+  macro_from_define (head w name ps ++ rest) = make_macro (idt w name) (args_of ps) rest.
+Proof.
+  intros Hwf Hfo. unfold macro_from_define. now rewrite (macro_definition_head w name ps rest Hwf Hfo).
+Qed.
+
+(* -D'HEAD=v'  versus  #define HEAD v   (v any token list).  macro_from_definition_string
+   replaces the first '=' by a blank, so in both token lists the first token of v is
+   preceded by white space. *)
+Theorem cmdline_define_value name ps v w w' :
   wf_head ps ->
-  macro_from_deftokens (head w name ps ++ eq_tok we :: v)
+  macro_from_dash_d (head w name ps ++ set_w_hd true v) (List.length (head w name ps)) true
   = macro_from_define (head w' name ps ++ set_w_hd true v).
 Proof.
-  intros Hwf. unfold macro_from_deftokens, macro_from_define.
-  rewrite (macro_definition_head w name ps (eq_tok we :: v) Hwf).
-  2:{ destruct ps; cbn; [exact I|reflexivity]. }
-  rewrite (macro_definition_head w' name ps (set_w_hd true v) Hwf).
-  2:{ destruct ps; cbn; [exact I|]. destruct v; cbn; [exact I|]. now rewrite andb_false_r. }
-  cbn [eq_tok tk tt tkind_eqb]. rewrite String.eqb_refl. cbn [andb].
-  symmetry. now apply make_macro_white.
+  intros Hwf.
+  assert (Hfo : follows_ok ps (set_w_hd true v)).
+  { destruct ps; cbn; [exact I|]. destruct v; cbn; [exact I|]. now rewrite andb_false_r. }
+  rewrite dash_d_head, define_head by assumption. reflexivity.
 Qed.
 
 (* -DHEAD  versus  #define HEAD 1 *)
 Theorem cmdline_define_default name ps w w' :
   wf_head ps ->
-  macro_from_deftokens (head w name ps)
+  macro_from_dash_d (head w name ps) (List.length (head w name ps)) false
   = macro_from_define (head w' name ps ++ [default_tok true]).
 Proof.
-  intros Hwf. unfold macro_from_deftokens, macro_from_define.
-  rewrite <- (app_nil_r (head w name ps)).
-  rewrite (macro_definition_head w name ps [] Hwf).
-  2:{ destruct ps; exact I. }
-  rewrite (macro_definition_head w' name ps [default_tok true] Hwf).
-  2:{ destruct ps; cbn; [exact I|reflexivity]. }
+  intros Hwf.
+  pose proof (dash_d_head name ps [] w false Hwf) as H. rewrite app_nil_r in H.
+  rewrite H by (destruct ps; exact I).
+  rewrite define_head; [|assumption|destruct ps; cbn; [exact I|reflexivity]].
   symmetry. apply (make_macro_white (idt w' name) (idt w name) (args_of ps) true [one_tok]). reflexivity.
+Qed.
+
+(* a head followed by anything that is not the separator position is rejected: the
+   number of head tokens must be exactly what macro_definition consumes *)
+Lemma cmdline_define_garbage name ps extra v w :
+  wf_head ps -> follows_ok ps (extra :: v) ->
+  macro_from_dash_d (head w name ps ++ extra :: v) (S (List.length (head w name ps))) true = Err "ParseError".
+Proof.
+  intros Hwf Hfo. unfold macro_from_dash_d.
+  rewrite (macro_definition_head w name ps (extra :: v) Hwf Hfo).
+  rewrite head_len_sub.
+  replace (Nat.eqb (List.length (head w name ps)) (S (List.length (head w name ps)))) with false; [reflexivity|].
+  symmetry. apply Nat.eqb_neq. lia.
 Qed.
 
 Lemma default_is_one : Gen.C03_tables.default_expansion = "1" /\ Gen.C03_tables.define_separator = "=".
